@@ -1,9 +1,10 @@
 (** C14 — Only a Good, in-date OCSP response for that certificate is ever stapled.
     Statements only, each closed by [exact] (or a few lines), with [Print Assumptions] beneath.
     Model: Ocsp/Model.v ([staple] = stapleOCSP with getOCSPForCert / checkOCSPResponse /
-    freshOCSP; [step] = cache a certificate | one pass of updateOCSPStaples with the revocation
-    reaction | restart | somebody else writes storage). The model is the code AFTER the three
-    fixes recorded in known_findings.d/C14.json. *)
+    freshOCSP; [step] = cache a certificate | one pass over the cache: the tick of updateOCSPStaples,
+    a handshake's handshakeMaintenance, or manageOne's immediate forceRenew, with the revocation
+    reaction | restart | somebody else writes storage). The model is the code AFTER the fixes
+    recorded in known_findings.d/C14.json. *)
 From Coq Require Import List ZArith Bool Lia.
 From CM Require Import Ocsp.Model Ocsp.Proofs.
 Import ListNotations.
@@ -14,30 +15,35 @@ Open Scope Z_scope.
 (** F — whatever a call leaves stapled is what the certificate carried before, or a response
     that is Good, for this very serial, within its own validity period now (a response without
     nextUpdate does not end), whose validity does not extend past the certificate's expiry; and
-    it was fetched and verified against the issuer, or was a fresh persisted staple. For every
-    responder answer, persisted value, storage fault, certificate and time. *)
+    it verifies against the issuer, signed by the issuer itself or by a responder certificate the
+    issuer issued for OCSP signing and that is valid now ([responder_ok]); it was fetched, or was a
+    fresh persisted staple. For every responder answer, persisted value, storage fault,
+    certificate and time. *)
 Theorem C14_staple_sound : forall dis c cs st e now b,
   cs_staple (res_cs (staple dis c cs st e now)) = Some b ->
   cs_staple cs = Some b \/
   exists r, b_parse b = Some r /\ r_status r = Good /\ r_serial r = c_serial c /\
     r_this r <= now /\ (r_next r = zero_time \/ now < r_next r) /\ r_next r <= c_expiry c /\
-    ((e_ans e = ABytes b /\ r_sig r = true /\ res_contact (staple dis c cs st e now) = true) \/
-     (st = Some b /\ fresh now r = true /\ res_contact (staple dis c cs st e now) = false)) /\
-    (opt_trusted c st = true -> r_sig r = true).
+    responder_ok now r = true /\ r_sig r = true /\
+    ((e_ans e = ABytes b /\ res_contact (staple dis c cs st e now) = true) \/
+     (st = Some b /\ fresh now r = true /\ res_contact (staple dis c cs st e now) = false)).
 Proof.
   intros dis c cs st e now b H.
-  destruct (staple_sound dis c cs st e now b H) as [E|(r & (A1 & A2 & A3 & A4 & A5 & A6) & S & T)]; [left; exact E|].
-  right. exists r. repeat split; assumption.
+  destruct (staple_sound dis c cs st e now b H) as [E|(r & (A1 & A2 & A3 & A4 & A5 & A6 & A7) & S & T)]; [left; exact E|].
+  right. exists r. repeat split; try assumption.
+  destruct S as [(S1 & _ & S3)|S]; [left; auto|right; exact S].
 Qed.
 Print Assumptions C14_staple_sound.
 
 (** F — "never": Revoked, Unknown, malformed / unverifiable, already-expired, not-yet-valid,
-    over-long responses and responses for another serial change nothing on the staple *)
+    over-long responses, responses for another serial, and responses signed by a responder
+    certificate that is expired or was not issued for OCSP signing change nothing on the staple *)
 Theorem C14_bad_answer_never_stapled : forall dis c cs st e now,
   reusable c now st = false ->
   (forall b r, e_ans e = ABytes b -> b_parse b = Some r ->
      ~ (r_sig r = true /\ r_status r = Good /\ r_serial r = c_serial c /\ r_this r <= now /\
-        (r_next r = zero_time \/ now < r_next r) /\ r_next r <= c_expiry c)) ->
+        (r_next r = zero_time \/ now < r_next r) /\ r_next r <= c_expiry c /\
+        responder_ok now r = true)) ->
   cs_staple (res_cs (staple dis c cs st e now)) = cs_staple cs.
 Proof. exact bad_answer_never_stapled. Qed.
 Print Assumptions C14_bad_answer_never_stapled.
@@ -65,55 +71,67 @@ Theorem C14_served_staples_sound : forall ops st0 en b,
   In (Some (en_att en)) (map op_time ops).
 Proof.
   intros ops st0 en b I B. split.
-  - assert (H : Inv false false (run (Sys [] st0) ops)).
-    { apply run_inv; [|discriminate]. split; [constructor|discriminate]. }
-    destruct H as [H _]. rewrite Forall_forall in H. specialize (H en I b B).
+  - assert (H : Inv (run (Sys [] st0) ops)) by (apply run_inv; constructor).
+    unfold Inv in H. rewrite Forall_forall in H. specialize (H en I b B).
     apply attach_ok_spec in H. destruct H as (r & A & _). exists r. exact A.
   - destruct (run_att ops (Sys [] st0) en I) as [(en0 & [] & _)|H]. exact H.
 Qed.
 Print Assumptions C14_served_staples_sound.
 
-(** F — if every certificate of the history comes with its issuer in the chain (what an ACME CA
-    delivers), every staple in the cache verifies against the issuer: for ANY initial storage
-    content and ANY foreign writes (persisted staples are verified like fetched ones) *)
-Theorem C14_served_staples_signed : forall ops st0 en b,
-  Forall op_chain ops ->
+(** F — and it verifies against the issuer (signed by the issuer, or by a responder certificate
+    that the issuer signed, that has the OCSP-signing purpose and was valid then): for ANY initial
+    storage content, ANY foreign writes, certificates with or without their issuer in the chain,
+    and every kind of visit (tick, handshake, manageOne). No hypothesis (after the fix of finding
+    C14-forged-persisted-no-issuer-in-chain). *)
+Theorem C14_served_staples_verified : forall ops st0 en b,
   In en (cache (run (Sys [] st0) ops)) -> cs_staple (en_cs en) = Some b ->
-  exists r, AttachOK (en_cert en) (en_att en) b r /\ r_sig r = true.
+  exists r, AttachOK (en_cert en) (en_att en) b r /\ r_sig r = true /\
+            responder_ok (en_att en) r = true.
 Proof.
-  intros ops st0 en b O I B.
-  assert (H : Inv true true (run (Sys [] st0) ops)).
-  { apply run_inv; [|auto]. split; [constructor|]. intros _. constructor. }
-  destruct H as [H _]. rewrite Forall_forall in H. specialize (H en I b B).
-  apply attach_ok_spec in H. destruct H as (r & A & Sg). exists r. auto.
+  intros ops st0 en b I B.
+  assert (H : Inv (run (Sys [] st0) ops)) by (apply run_inv; constructor).
+  unfold Inv in H. rewrite Forall_forall in H. specialize (H en I b B).
+  apply attach_ok_spec in H. destruct H as (r & A & Sg). exists r. split; [exact A|]. split; [auto|].
+  destruct A as (_ & _ & _ & _ & _ & _ & RO). exact RO.
 Qed.
-Print Assumptions C14_served_staples_signed.
+Print Assumptions C14_served_staples_verified.
 
-(** F — for certificates handed over without their issuer the same holds under the storage
-    hypothesis: storage initially holds, and foreign writers only write, responses that verify
-    against the issuer (or garbage) *)
-Theorem C14_served_staples_signed_trusted_storage : forall ops st0 en b,
-  store_signed st0 -> Forall op_signed ops ->
-  In en (cache (run (Sys [] st0) ops)) -> cs_staple (en_cs en) = Some b ->
-  exists r, AttachOK (en_cert en) (en_att en) b r /\ r_sig r = true.
+(** F — the same for what a handshake gets back while it refreshes the status itself
+    (handshakeMaintenance): the staple the cached certificate had, or a verified Good current
+    response for it *)
+Theorem C14_handshake_gets_sound_staple : forall dis now e en st,
+  ret_sound (en_cert en) (cs_staple (en_cs en)) (cs_staple (hs_returned dis now e en st)) now = true.
+Proof. exact hs_returned_sound. Qed.
+Print Assumptions C14_handshake_gets_sound_staple.
+
+(** F — a handshake does not ask anybody while the recorded status is fresh and not Revoked *)
+Theorem C14_handshake_fresh_untouched : forall dis now e rn en st r,
+  cs_ocsp (en_cs en) = Some r -> fresh now r = true -> r_status r <> Revoked ->
+  maintain_one KHandshake dis now e rn en st = ([en], st, []).
+Proof. exact hs_fresh_untouched. Qed.
+Print Assumptions C14_handshake_fresh_untouched.
+
+(** F — a persisted staple that cannot be verified (no issuer in the chain) is neither reused nor
+    deleted: it is not looked at *)
+Theorem C14_unverifiable_persisted_not_used : forall c now st,
+  c_chain c = false -> reusable c now st = false /\ corrupt c st = false.
 Proof.
-  intros ops st0 en b S O I B.
-  assert (H : Inv true false (run (Sys [] st0) ops)).
-  { apply run_inv; [|auto]. split; [constructor|auto]. }
-  destruct H as [H _]. rewrite Forall_forall in H. specialize (H en I b B).
-  apply attach_ok_spec in H. destruct H as (r & A & Sg). exists r. auto.
+  intros c now st Ch. unfold reusable, corrupt, stored_parse. rewrite Ch. split; [|reflexivity].
+  destruct st; reflexivity.
 Qed.
-Print Assumptions C14_served_staples_signed_trusted_storage.
+Print Assumptions C14_unverifiable_persisted_not_used.
 
-(** R — without either hypothesis the signature clause is false: for a certificate handed over
-    WITHOUT its issuer, a persisted staple is parsed with a nil issuer, so a forged one is
-    stapled (known finding C14-forged-persisted-no-issuer-in-chain) *)
-Theorem C14_signature_refuted_chainless_forged_store :
-  exists c cs st e now b r,
-    cs_staple (res_cs (staple false c cs st e now)) = Some b /\ cs_staple cs = None /\
-    b_parse b = Some r /\ r_sig r = false.
-Proof. exact staple_signature_refuted_chainless_forged_store. Qed.
-Print Assumptions C14_signature_refuted_chainless_forged_store.
+(** R — so the clause "a still-fresh persisted staple is reused without contacting the responder"
+    is false for certificates handed over WITHOUT their issuer: the responder is asked although a
+    fresh, valid, properly signed staple is persisted (the price of never stapling what cannot be
+    verified; replayed on the real code as corpus class chainless-persisted-not-reused) *)
+Theorem C14_reuse_refuted_chainless :
+  exists c cs b r e now,
+    c_chain c = false /\ b_parse b = Some r /\ r_sig r = true /\ r_status r = Good /\
+    fresh now r = true /\ valid_for c now r = true /\ r_next r <= c_expiry c /\
+    res_contact (staple false c cs (Some b) e now) = true.
+Proof. exact reuse_refuted_chainless. Qed.
+Print Assumptions C14_reuse_refuted_chainless.
 
 (** ** 3. Responder failure is not fatal *)
 
@@ -144,17 +162,17 @@ Theorem C14_served_iff_cached : forall l,
 Proof. intros l. split; [exact (cached_is_served l)|exact (fun n en => served_is_cached n l en)]. Qed.
 Print Assumptions C14_served_iff_cached.
 
-(** F — and a maintenance pass removes a certificate only if it is managed and was reported
-    Revoked by a response that passed all checks ([learned_revoked]); in particular never
-    because the responder failed *)
-Theorem C14_maintenance_keeps_certificates : forall s dis now envs rns en,
+(** F — and a pass of any kind (the tick, a handshake, manageOne) removes a certificate only if
+    it is managed and was reported Revoked by a response that passed all checks ([may_drop]:
+    recorded, or learned in this pass); in particular never because the responder failed *)
+Theorem C14_maintenance_keeps_certificates : forall s ks dis now envs rns en,
   NoDup (ids (cache s)) -> new_fresh (cache s) rns -> In en (cache s) ->
-  let st := step s (OMaintain dis now envs rns) in
+  let st := step s (OMaintain ks dis now envs rns) in
   has_cert (eid en) (cache (fst st)) = true \/
-  (en_managed en = true /\ learned_revoked dis now (envs (eid en)) s (snd st) en = true).
+  (en_managed en = true /\ may_drop (ks (eid en)) dis now (envs (eid en)) s (snd st) en = true).
 Proof.
-  intros s dis now envs rns en N F I st.
-  pose proof (step_not_fatal_holds s (OMaintain dis now envs rns) N F) as H.
+  intros s ks dis now envs rns en N F I st.
+  pose proof (step_not_fatal_holds s (OMaintain ks dis now envs rns) N F) as H.
   cbn [step_not_fatal] in H. rewrite forallb_forall in H. specialize (H en I).
   apply orb_true_iff in H. destruct H as [H|H]; [left; exact H|right].
   apply andb_true_iff in H. exact H.
@@ -181,7 +199,7 @@ Theorem C14_persisted_staple_reused_after_restart : forall s c m e now b r m' e'
   let s1 := fst (step s (OCache c m false e now)) in
   sget (c_id c) (stor s1) = Some b -> stored_parse c b = Some r -> r_status r = Good ->
   r_serial r = c_serial c -> r_next r <= c_expiry c ->
-  r_this r <= now' -> fresh now' r = true -> e_load_err e' = false ->
+  r_this r <= now' -> fresh now' r = true -> responder_ok now' r = true -> e_load_err e' = false ->
   let st2 := step (fst (step s1 ORestart)) (OCache c m' false e' now') in
   (exists en, cache (fst st2) = [en] /\ en_cert en = c /\ cs_staple (en_cs en) = Some b) /\
   (forall cl, In cl (snd st2) -> cl_seen cl = false) /\
@@ -202,7 +220,7 @@ Print Assumptions C14_own_persisted_staple_reused.
     chain) is deleted; what may take its place is only a verified Good response for this
     certificate *)
 Theorem C14_corrupt_persisted_deleted : forall c cs e now b,
-  stored_parse c b = None -> e_load_err e = false -> e_del_err e = false ->
+  c_chain c = true -> stored_parse c b = None -> e_load_err e = false -> e_del_err e = false ->
   let res := staple false c cs (Some b) e now in
   In SDelete (res_ops res) /\
   (res_store res = None \/
@@ -212,19 +230,21 @@ Print Assumptions C14_corrupt_persisted_deleted.
 
 (** ** 5. Revocation *)
 
-(** F — a managed, unexpired certificate known to be revoked (recorded, or learned in this pass
-    from a response that passed all checks) is, in the same maintenance pass, replaced by the new
-    certificate, and if no replacement could be obtained (or loaded) it leaves the cache *)
-Theorem C14_revoked_replaced_or_evicted : forall s dis now envs rns en,
+(** F — a managed, unexpired certificate known to be revoked ([must_renew]: for the tick recorded
+    or learned in this pass from a response that passed all checks; for manageOne recorded when
+    it was cached; for a handshake what its copy says after the refresh) is, in the same pass,
+    replaced by the new certificate, and if no replacement could be obtained (or loaded) it leaves
+    the cache *)
+Theorem C14_revoked_replaced_or_evicted : forall s ks dis now envs rns en,
   NoDup (ids (cache s)) -> new_fresh (cache s) rns -> In en (cache s) ->
   en_managed en = true -> c_expiry (en_cert en) >= now ->
-  let st := step s (OMaintain dis now envs rns) in
-  learned_revoked dis now (envs (eid en)) s (snd st) en = true ->
+  let st := step s (OMaintain ks dis now envs rns) in
+  must_renew (ks (eid en)) dis now (envs (eid en)) s (snd st) en = true ->
   has_cert (eid en) (cache (fst st)) = false /\
   (forall newc e', rns (eid en) = ROk newc e' -> has_cert (c_id newc) (cache (fst st)) = true).
 Proof.
-  intros s dis now envs rns en N F I Mg X st Lr.
-  pose proof (step_revoked_holds s (OMaintain dis now envs rns) N F) as H.
+  intros s ks dis now envs rns en N F I Mg X st Lr.
+  pose proof (step_revoked_holds s (OMaintain ks dis now envs rns) N F) as H.
   cbn [step_revoked] in H. rewrite forallb_forall in H. specialize (H en I).
   fold (eid en) in H. fold st in H. rewrite Mg, Lr in H.
   assert (Xb : (c_expiry (en_cert en) <? now) = false) by (apply Z.ltb_ge; lia).
@@ -250,7 +270,7 @@ Theorem C14_revoked_answer_replaced_or_evicted : forall s now envs rns en b r,
   reusable c now (sget (eid en) (stor s)) = false ->
   e_ans (envs (eid en)) = ABytes b -> parse_issuer b = Some r -> r_status r = Revoked ->
   valid_for c now r = true -> r_next r <= c_expiry c ->
-  let post := cache (fst (step s (OMaintain false now envs rns))) in
+  let post := cache (fst (step s (OMaintain tick false now envs rns))) in
   has_cert (eid en) post = false /\
   (forall newc e', rns (eid en) = ROk newc e' -> has_cert (c_id newc) post = true).
 Proof. exact revoked_answer_replaced_or_evicted. Qed.
@@ -261,17 +281,23 @@ Print Assumptions C14_revoked_answer_replaced_or_evicted.
 (** F — [spec_call] (evaluated by the check on every observed call of the real stapleOCSP)
     holds of the model for all inputs *)
 Theorem C14_spec_call_holds : forall dis c cs st e now,
-  opt_trusted c st = true -> spec_call dis c cs st e now (staple dis c cs st e now) = true.
+  spec_call dis c cs st e now (staple dis c cs st e now) = true.
 Proof. exact spec_call_holds. Qed.
 Print Assumptions C14_spec_call_holds.
 
 (** F — [spec_step] (evaluated by the check on every observed step of every history run against
     the real code) holds of every step of every well-formed history of the model, of any length *)
-Theorem C14_spec_holds_on_all_histories : forall md ops s,
-  NoDup (ids (cache s)) -> trust md s -> run_wf md s ops ->
+Theorem C14_spec_holds_on_all_histories : forall ops s,
+  NoDup (ids (cache s)) -> run_wf s ops ->
   all_steps spec_step s ops = true.
 Proof. exact all_steps_spec. Qed.
 Print Assumptions C14_spec_holds_on_all_histories.
+
+(** F — tie: the source of /repo has, right now, every comparison (and its direction), guard and
+    statement order the model hard-codes (25 items extracted by the translator on every run) *)
+Theorem C14_model_follows_code_shape : ocsp_code_shape = true.
+Proof. exact code_shape. Qed.
+Print Assumptions C14_model_follows_code_shape.
 
 (** ** Non-vacuity: the hypotheses are met by concrete, non-trivial states *)
 
@@ -290,7 +316,7 @@ Definition xhist : list op :=
   [OCache xc1 true false (xenv xgood) 1000;
    ORestart;
    OCache xc1 true false (Env ARefused false false false) 1200;
-   OMaintain false 1600 (fun _ => xenv xrev) (fun _ => ROk xc2 (xenv xgood2))].
+   OMaintain tick false 1600 (fun _ => xenv xrev) (fun _ => ROk xc2 (xenv xgood2))].
 
 Example C14_example_history :
   map (fun en => (c_id (en_cert en), match cs_staple (en_cs en) with Some b => b_id b | None => -1 end, en_att en))
@@ -300,22 +326,57 @@ Example C14_example_history :
   snd (step (run (Sys [] []) (firstn 2 xhist)) (OCache xc1 true false (Env ARefused false false false) 1200)) =
     [Call 1 false false [SLoad]] /\
   all_steps spec_step (Sys [] []) xhist = true.
-Proof. vm_compute. auto. Qed.
+Proof. vm_compute. repeat split; auto. Qed.
 
 Example C14_example_run_wf :
-  run_wf true (Sys [] []) xhist /\ trust true (Sys [] []) /\ NoDup (ids (cache (Sys [] []))) /\
-  Forall op_chain xhist.
+  run_wf (Sys [] []) xhist /\ NoDup (ids (cache (Sys [] []))).
 Proof.
-  assert (C : Forall op_chain xhist).
-  { repeat constructor. intros id newc e H. inversion H; subst. reflexivity. }
-  split; [|split; [constructor|split; [constructor|exact C]]].
-  cbn [run_wf xhist]. repeat split; try exact I; try reflexivity.
-  3:{ intros id newc e H. inversion H; subst. reflexivity. }
+  split; [|constructor].
+  cbn [run_wf xhist]. repeat split; try exact I.
   - intros en newc e' H. vm_compute in H. destruct H as [<-|[]]. vm_compute.
     intros E. inversion E; subst. intros [H|[]]. discriminate.
   - intros en1 en2 n1 e1 n2 e2 H1 H2. vm_compute in H1, H2.
     destruct H1 as [<-|[]]. destruct H2 as [<-|[]]. intros N. exfalso. apply N. reflexivity.
 Qed.
+
+(** a handshake with on-demand management meets a certificate whose recorded Good status is no
+    longer fresh: it asks, learns Revoked, gets its copy back (old Good staple, still attach-valid
+    when attached), and the certificate is replaced; manageOne meets a certificate cached with a
+    Revoked status and replaces it at once *)
+Definition only (k : mkind) (id : Z) : Z -> mkind := fun i => if i =? id then k else KSkip.
+Definition xhist_hs : list op :=
+  [OCache xc1 true false (xenv xgood) 1000;
+   OMaintain (only KHandshake 1) false 1600 (fun _ => xenv xrev) (fun _ => ROk xc2 (xenv xgood2))].
+Definition xhist_manage : list op :=
+  [OCache xc1 true false (xenv xrev) 1600;
+   OMaintain (only KManage 1) false 1600 (fun _ => xenv xrev) (fun _ => RFail)].
+
+Example C14_example_handshake_and_manage :
+  map (fun en => (c_id (en_cert en), match cs_staple (en_cs en) with Some b => b_id b | None => -1 end))
+      (cache (run (Sys [] []) xhist_hs)) = [(2, 12)] /\
+  all_steps spec_step (Sys [] []) xhist_hs = true /\
+  cache (run (Sys [] []) xhist_manage) = [] /\
+  all_steps spec_step (Sys [] []) xhist_manage = true /\
+  (let s := run (Sys [] []) (firstn 1 xhist_hs) in
+   forallb (fun en => must_renew KHandshake false 1600 (xenv xrev) s
+                        (snd (step s (OMaintain (only KHandshake 1) false 1600 (fun _ => xenv xrev) (fun _ => ROk xc2 (xenv xgood2))))) en)
+           (cache s) = true /\ cache s <> []) /\
+  (let s := run (Sys [] []) (firstn 1 xhist_manage) in
+   forallb (fun en => must_renew KManage false 1600 (xenv xrev) s [] en) (cache s) = true /\ cache s <> []).
+Proof. vm_compute. repeat split; try discriminate; auto. Qed.
+
+(** a response signed by a delegated responder: accepted while the responder certificate is valid
+    and has the OCSP-signing purpose, refused otherwise *)
+Example C14_example_delegated_responder :
+  let rc_ok := RC 5000 0 true false in
+  let rc_expired := RC 1100 0 true false in
+  let rc_noeku := RC 5000 0 false false in
+  let b x := Blob 20 (Some (Resp Good 11 900 2000 (Some x) true)) in
+  cs_staple (res_cs (staple false xc1 (CS None None) None (xenv (b rc_ok)) 1200)) = Some (b rc_ok) /\
+  cs_staple (res_cs (staple false xc1 (CS None None) None (xenv (b rc_expired)) 1200)) = None /\
+  cs_staple (res_cs (staple false xc1 (CS None None) None (xenv (b rc_noeku)) 1200)) = None /\
+  cs_staple (res_cs (staple false xc1 (CS None None) None (xenv (b (RC 5000 0 false true))) 1200)) <> None.
+Proof. vm_compute. repeat split; discriminate. Qed.
 
 (** the premises of [C14_revoked_answer_replaced_or_evicted] are satisfiable *)
 Example C14_example_revoked_premises :
@@ -336,16 +397,17 @@ Qed.
 Example C14_example_reuse_premises :
   stored_parse xc1 xgood = Some (xr Good 11 900 2000) /\ fresh 1200 (xr Good 11 900 2000) = true /\
   valid_for xc1 1200 (xr Good 11 900 2000) = true /\ stored_parse xc1 (Blob 99 None) = None /\
-  opt_trusted xc1 (Some xgood) = true.
-Proof. vm_compute. auto. Qed.
+  c_chain xc1 = true /\ responder_ok 1200 (xr Good 11 900 2000) = true.
+Proof. vm_compute. repeat split; auto. Qed.
 
-(** the premise [learned_revoked] of [C14_revoked_replaced_or_evicted] (and the exception of
+(** the premise [must_renew] of [C14_revoked_replaced_or_evicted] (and the exception of
     [C14_maintenance_keeps_certificates]) is met in the last step of [xhist], from the responder's
     answer; and the premises of [C14_bad_answer_never_stapled] by a Revoked answer *)
 Example C14_example_learned_revoked :
   let s := run (Sys [] []) (firstn 3 xhist) in
-  let st := step s (OMaintain false 1600 (fun _ => xenv xrev) (fun _ => ROk xc2 (xenv xgood2))) in
-  forallb (fun en => en_managed en && learned_revoked false 1600 (xenv xrev) s (snd st) en) (cache s) = true /\
+  let st := step s (OMaintain tick false 1600 (fun _ => xenv xrev) (fun _ => ROk xc2 (xenv xgood2))) in
+  forallb (fun en => en_managed en && must_renew KTick false 1600 (xenv xrev) s (snd st) en &&
+                     may_drop KTick false 1600 (xenv xrev) s (snd st) en) (cache s) = true /\
   NoDup (ids (cache s)) /\ cache s <> [] /\
   reusable xc1 1600 None = false /\
   (forall b r, e_ans (xenv xrev) = ABytes b -> b_parse b = Some r -> r_status r <> Good).
